@@ -29,10 +29,15 @@ static LIVE: AtomicUsize = AtomicUsize::new(0);
 static PEAK: AtomicUsize = AtomicUsize::new(0);
 const TRAP: usize = 1 << 30;
 
+static IN_TRAP: std::sync::atomic::AtomicBool = std::sync::atomic::AtomicBool::new(false);
 fn trap(n: usize) -> ! {
     // no allocation, no locks: raw write to fd 1, then abort
     use std::io::Write;
     use std::os::fd::FromRawFd;
+    if std::env::var_os("C06_BT").is_some() && !IN_TRAP.swap(true, Relaxed) {
+        // diagnostic mode: where does the request come from (allocates; counting is bypassed)
+        eprintln!("{}", std::backtrace::Backtrace::force_capture());
+    }
     let mut buf = [0u8; 40];
     let mut i = buf.len();
     buf[i - 1] = b'\n';
@@ -52,6 +57,9 @@ fn trap(n: usize) -> ! {
     std::process::abort();
 }
 fn on_alloc(n: usize) {
+    if IN_TRAP.load(Relaxed) {
+        return;
+    }
     if n > TRAP {
         trap(n);
     }
@@ -570,10 +578,61 @@ impl World {
 }
 
 
+/// Runtime wrapper (as in bin/disc.rs): identical to SimRuntime except that the timer notices when
+/// the code under test asks for a ZERO delay over and over at one frozen simulated instant (the
+/// worker does this when `now - last_communication == lease_duration` exactly, e.g. for a discovered
+/// participant announcing a lease duration of 0).  With a real clock such a busy loop ends when the
+/// clock ticks; here the clock is moved by 1 ns after 64 consecutive zero delays.
+#[derive(Default)]
+struct SpinState {
+    at: i64,
+    count: u32,
+}
+#[derive(Clone)]
+struct C06Timer {
+    inner: vh::sim::SimTimer,
+    shared: std::sync::Arc<vh::sim::Shared>,
+    spin: std::sync::Arc<std::sync::Mutex<SpinState>>,
+}
+impl dust_dds::runtime::Timer for C06Timer {
+    fn delay(&mut self, duration: core::time::Duration) -> impl std::future::Future<Output = ()> + Send {
+        if duration.as_nanos() == 0 {
+            let mut now = self.shared.now_ns.lock().unwrap();
+            let mut st = self.spin.lock().unwrap();
+            if st.at == *now {
+                st.count += 1;
+            } else {
+                st.at = *now;
+                st.count = 1;
+            }
+            if st.count >= 64 {
+                *now += 1;
+                st.count = 0;
+            }
+        }
+        self.inner.delay(duration)
+    }
+}
+struct C06Runtime(std::sync::Arc<vh::sim::Shared>, std::sync::Arc<std::sync::Mutex<SpinState>>);
+impl dust_dds::runtime::DdsRuntime for C06Runtime {
+    type ClockHandle = vh::sim::SimClock;
+    type TimerHandle = C06Timer;
+    type SpawnerHandle = vh::sim::SimSpawner;
+    fn timer(&self) -> C06Timer {
+        C06Timer { inner: SimRuntime(self.0.clone()).timer(), shared: self.0.clone(), spin: self.1.clone() }
+    }
+    fn clock(&self) -> vh::sim::SimClock {
+        SimRuntime(self.0.clone()).clock()
+    }
+    fn spawner(&self) -> vh::sim::SimSpawner {
+        SimRuntime(self.0.clone()).spawner()
+    }
+}
+
 fn new_world() -> World {
     let sim = Sim::new(1344);
     let factory = DomainParticipantFactoryAsync::new(
-        SimRuntime(sim.shared.clone()),
+        C06Runtime(sim.shared.clone(), Default::default()),
         [1, 2, 3, 4],
         [5, 6, 7, 8],
         SimTransport(sim.shared.clone()),
